@@ -36,6 +36,7 @@ def build(rng, root, classes, nmut, opts=None):
     opts = opts or {}
     skel = gtree.gen_skeleton(
         rng, max_dirs=opts.get('max_dirs', 6), max_files=opts.get('max_files', 14),
+        depth=opts.get('depth', 4),
         hostile=opts.get('hostile', rng.choice([0, 0.3, 0.6])),
         symlinks=opts.get('symlinks', True), specials=opts.get('specials', True))
     layout, info = glayout.build_consistent(rng, root, skel, opts)
